@@ -647,6 +647,18 @@ ExecStmt(M, s) ==
          IF M1.sig = "" THEN [M1 EXCEPT !.out = Append(@, <<"end", s.name>>)] ELSE M1
     [] s.k = "event" -> [M EXCEPT !.out = Append(@, <<s.what, s.name>>)]
     [] s.k = "block" -> ExecSeq(M, s.body, 1)
+    [] s.k = "isub" ->
+         \* intrinsic subroutine: s.reads are evaluated, every s.writes target
+         \* (the arguments the Fortran standard says the intrinsic defines) gets
+         \* a defined but unspecified value (0) - used for access tracking
+         LET rds == UNION {ExprReads(M, s.reads[i]) : i \in DOMAIN s.reads}
+             M0 == NoteReads(M, rds \cup UNION {IdxReads(M, s.writes[i]) : i \in DOMAIN s.writes})
+             RECURSIVE WrAll(_, _)
+             WrAll(MM, i) ==
+               IF i > Len(s.writes) \/ MM.sig # "" THEN MM
+               ELSE WrAll(DoAssign(MM, s.writes[i], [k |-> "lit", t |-> "int", v |-> 0]), i + 1)
+         IN IF \E i \in DOMAIN s.reads : HasPoison(Eval(M, s.reads[i])) THEN Ub(M0)
+            ELSE WrAll(M0, 1)
     [] s.k = "track" ->
          \* run the body with access tracking on and append one access record
          \* [rd (upward-exposed reads), ard (all reads), wr (writes), sig, replay]
